@@ -12,6 +12,7 @@
 //!   `Z`     `Ok(0)` (even when bytes remain: a reader may report end of data whenever it likes)
 //!   `I`     `Err(Os{EINTR})`
 //!   `F`     `Err(Os{EIO})`
+//!   `P`     the call panics (unwinds through the helper); last entry of a script only
 //!   after the script: deliver everything that remains, then `Ok(0)` for ever.
 //! The reference is plain concatenation: the bytes the reader handed out during the
 //! call, `P[..pos]`.  (For a helper that stops at the first `Ok(0)`/error — as every
@@ -34,6 +35,7 @@ const ALL: usize = usize::MAX;
 /// ladder scripts only: half of the requested length (at least 1)
 const HALF: usize = usize::MAX - 1;
 const HORIZON_MSG: &str = "C15-call-horizon-exceeded";
+const SCRIPTED_PANIC_MSG: &str = "C15-scripted-panic";
 
 /// menu of delivery sizes of the reader (besides ALL)
 const RMENU: [usize; 5] = [1, 2, 31, 32, 33];
@@ -45,6 +47,8 @@ const LWMENU: [usize; 2] = [1, 100];
 /// size ladder: spare capacities / buffer sizes; payload lengths are these plus two large ones
 const LADDER: [usize; 19] = [0, 1, 31, 32, 33, 127, 128, 129, 1023, 1024, 1025, 4095, 4096, 4097, 8191, 8192, 8193, 16384, 65536];
 const LADDER_EXTRA_LENS: [usize; 2] = [3 * 8192 + 5, 100_000];
+/// payload lengths above this are the expensive ones (a 1-byte chunk tail means that many calls)
+const LADDER_BIG: usize = 3 * 8192 + 5;
 /// size ladder: lengths of the formatted pieces
 const PIECE_LENS: [usize; 9] = [0, 1, 2, 127, 128, 129, 300, 4096, 5000];
 
@@ -61,6 +65,8 @@ enum Step {
     Zero,
     Eintr,
     Fail,
+    /// the reader / writer panics (unwinds) in this call; only ever the last entry of a script
+    Panic,
 }
 
 fn rsym(i: usize) -> Step {
@@ -69,9 +75,11 @@ fn rsym(i: usize) -> Step {
         5 => Step::Deliver(ALL),
         6 => Step::Zero,
         7 => Step::Eintr,
-        _ => Step::Fail,
+        8 => Step::Fail,
+        _ => Step::Panic,
     }
 }
+/// symbols of the reader menu; index N_RSYM is the panic entry (see `for_each_script`)
 const N_RSYM: usize = 9;
 
 fn wsym(i: usize) -> Step {
@@ -80,7 +88,8 @@ fn wsym(i: usize) -> Step {
         3 => Step::Deliver(ALL),
         4 => Step::Eintr,
         5 => Step::Zero,
-        _ => Step::Fail,
+        6 => Step::Fail,
+        _ => Step::Panic,
     }
 }
 const N_WSYM: usize = 7;
@@ -90,7 +99,8 @@ fn lsym(i: usize) -> Step {
         0..=3 => Step::Deliver(LMENU[i]),
         4 => Step::Deliver(HALF),
         5 => Step::Deliver(ALL),
-        _ => Step::Eintr,
+        6 => Step::Eintr,
+        _ => Step::Panic,
     }
 }
 const N_LSYM: usize = 7;
@@ -99,10 +109,26 @@ fn lwsym(i: usize) -> Step {
     match i {
         0..=1 => Step::Deliver(LWMENU[i]),
         2 => Step::Deliver(ALL),
-        _ => Step::Eintr,
+        3 => Step::Eintr,
+        _ => Step::Panic,
     }
 }
 const N_LWSYM: usize = 4;
+
+/// Every sequence of length <= `l` over the symbols `0..n_sym`, then every sequence of length < `lp` followed by the
+/// panic symbol (index `n_sym`): a panicking call ends the helper, so it is only ever the last entry.
+fn for_each_script(n_sym: usize, l: usize, lp: usize, mut f: impl FnMut(&[usize])) {
+    for_each_seq(n_sym, l, &mut f);
+    if lp >= 1 {
+        let mut buf: Vec<usize> = Vec::new();
+        for_each_seq(n_sym, lp - 1, |idx| {
+            buf.clear();
+            buf.extend_from_slice(idx);
+            buf.push(n_sym);
+            f(&buf);
+        });
+    }
+}
 
 fn script_string(script: &[Step], writer: bool, out: &mut String) {
     use std::fmt::Write as _;
@@ -119,6 +145,7 @@ fn script_string(script: &[Step], writer: bool, out: &mut String) {
             Step::Zero => out.push('Z'),
             Step::Eintr => out.push('I'),
             Step::Fail => out.push('F'),
+            Step::Panic => out.push('P'),
         }
     }
 }
@@ -129,6 +156,7 @@ fn parse_script(s: &str) -> Vec<Step> {
             "Z" => Step::Zero,
             "I" => Step::Eintr,
             "F" => Step::Fail,
+            "P" => Step::Panic,
             "DALL" | "AALL" => Step::Deliver(ALL),
             "DHALF" => Step::Deliver(HALF),
             _ => Step::Deliver(t[1..].parse().expect("script token")),
@@ -162,6 +190,7 @@ struct SReader<'a> {
     saw_eof: bool,
     saw_fail: bool,
     saw_eintr: bool,
+    saw_panic: bool,
     /// the script is the canonical representative of the response trace it produced
     canonical: bool,
     thash: u64,
@@ -210,6 +239,7 @@ impl<'a> SReader<'a> {
             saw_eof: false,
             saw_fail: false,
             saw_eintr: false,
+            saw_panic: false,
             canonical: true,
             thash: 0xcbf29ce484222325,
             cuts: 0,
@@ -306,6 +336,14 @@ impl Read for SReader<'_> {
                 self.saw_fail = true;
                 Err(eio())
             }
+            Step::Panic => {
+                self.saw_panic = true;
+                self.thash = mix(self.thash, u64::MAX);
+                if let Some(t) = &mut self.trace {
+                    t.push(format!("read(len {}) -> panics", buf.len()));
+                }
+                panic!("{SCRIPTED_PANIC_MSG}");
+            }
         };
         self.thash = mix(
             self.thash,
@@ -339,6 +377,7 @@ struct SWriter<'a> {
     saw_fail: bool,
     saw_zero: bool,
     saw_eintr: bool,
+    saw_panic: bool,
     short: bool,
     sticky: Option<Step>,
     canonical: bool,
@@ -357,6 +396,7 @@ impl<'a> SWriter<'a> {
             saw_fail: false,
             saw_zero: false,
             saw_eintr: false,
+            saw_panic: false,
             short: false,
             sticky: None,
             canonical: true,
@@ -426,6 +466,13 @@ impl Write for SWriter<'_> {
                 self.saw_fail = true;
                 self.sticky = Some(Step::Fail);
                 Err(eio())
+            }
+            Step::Panic => {
+                self.saw_panic = true;
+                if let Some(t) = &mut self.trace {
+                    t.push(format!("write(len {}) -> panics", buf.len()));
+                }
+                panic!("{SCRIPTED_PANIC_MSG}");
             }
         };
         if let Some(t) = &mut self.trace {
@@ -535,6 +582,13 @@ fn run_rte(r: &mut Report, case: &str, payload: &[u8], script: &[Step], len0: us
     }
     let want = rd.delivered();
     match res {
+        Err(p) if rd.saw_panic && p.contains(SCRIPTED_PANIC_MSG) => {
+            // the reader's own panic unwound through the helper: nothing is stated beyond "appended after existing content"
+            r.outcome("read_to_end:reader-panic-unwound");
+            if v.len() < len0 || v[..len0] != OLD[..len0] {
+                viol(r, OP, "existing-content-clobbered", format!("after the reader's panic unwound, the first {len0} bytes are {}", show_bytes(&v[..len0.min(v.len())])), case);
+            }
+        }
         Err(p) => {
             if rd.livelocked() {
                 r.outcome("read_to_end:livelock");
@@ -626,12 +680,34 @@ fn run_rts(r: &mut Report, case: &str, payload: &[u8], script: &[Step], menu: &[
     let delivered_utf8 = std::str::from_utf8(delivered).is_ok();
     let unchanged = raw == old.as_bytes();
     if std::str::from_utf8(&raw).is_err() {
-        viol(r, OP, "string-holds-invalid-utf8", format!("String bytes after the call: {} (result {res:?})", brief(&raw)), case);
+        // the type invariant of String, whatever way the call ended
+        let unwound = res.is_err() && rd.saw_panic;
+        viol(
+            r,
+            OP,
+            if unwound { "invalid-utf8-left-after-unwind" } else { "string-holds-invalid-utf8" },
+            format!("String bytes after the call: {} (result {res:?}); {}", brief(&raw), rd_summary(&rd)),
+            case,
+        );
         std::mem::forget(s);
         r.outcome("read_to_string:string-corrupted");
         return rd.cuts;
     }
     match res {
+        Err(p) if rd.saw_panic && p.contains(SCRIPTED_PANIC_MSG) => {
+            // the reader's own panic unwound through the helper; the String is valid UTF-8 (checked above) and must be
+            // unchanged when what was appended so far is not UTF-8
+            r.outcome(if delivered_utf8 { "read_to_string:reader-panic-unwound" } else { "read_to_string:reader-panic-unwound-over-invalid-utf8" });
+            if !delivered_utf8 && !unchanged {
+                viol(
+                    r,
+                    OP,
+                    "string-modified-on-invalid-utf8",
+                    format!("delivered bytes {} are not UTF-8, the reader then panicked; string changed from {:?} to bytes {}", brief(delivered), old, brief(&raw)),
+                    case,
+                );
+            }
+        }
         Err(p) => {
             if rd.livelocked() {
                 r.outcome("read_to_string:livelock");
@@ -738,6 +814,10 @@ fn run_rex(r: &mut Report, case: &str, payload: &[u8], script: &[Step], bufsize:
         println!("  result: {res:?}; buffer {}; {}", brief(&b), rd_summary(&rd));
     }
     match res {
+        Err(p) if rd.saw_panic && p.contains(SCRIPTED_PANIC_MSG) => {
+            // the reader's own panic unwound through the helper: nothing is stated about the buffer
+            r.outcome("read_exact:reader-panic-unwound");
+        }
         Err(p) => {
             if rd.livelocked() {
                 r.outcome("read_exact:livelock");
@@ -918,7 +998,7 @@ fn run_fmt_ladder_point(r: &mut Report, shape: usize, lens: &[usize], l: usize, 
     let prefix = case_prefix(json!({"op":"write_fmt","ladder":true,"shape":shape,"pieces":lens}));
     let mut cs = String::new();
     let mut steps: Vec<Step> = Vec::new();
-    for_each_seq(N_LWSYM, l, |idx| {
+    for_each_script(N_LWSYM, l, l, |idx| {
         steps.clear();
         steps.extend(idx.iter().map(|&i| lwsym(i)));
         case_string(&mut cs, &prefix, &steps, true);
@@ -992,6 +1072,10 @@ fn run_write(
         );
     }
     match res {
+        Err(p) if w.saw_panic && p.contains(SCRIPTED_PANIC_MSG) => {
+            // the writer's own panic unwound; what it had accepted before is a prefix, each byte once (checked above)
+            r.outcome(&oc("writer-panic-unwound"));
+        }
         Err(p) => {
             if w.livelocked() {
                 r.outcome(&oc("livelock"));
@@ -1104,7 +1188,7 @@ fn texts() -> Vec<String> {
 /// every way of cutting `n` bytes into consecutive pieces using at most `max_cuts` cuts,
 /// as scripts of `Deliver(piece)` (the last piece is left to the reader's default), each
 /// optionally with an EINTR between the pieces
-fn cut_scripts(n: usize, max_cuts: usize, with_eintr: bool) -> Vec<Vec<Step>> {
+fn cut_scripts(n: usize, max_cuts: usize, with_eintr: bool, with_panic: bool) -> Vec<Vec<Step>> {
     fn rec(n: usize, start: usize, left: usize, cur: &mut Vec<usize>, out: &mut Vec<Vec<usize>>) {
         out.push(cur.clone());
         if left == 0 {
@@ -1130,6 +1214,12 @@ fn cut_scripts(n: usize, max_cuts: usize, with_eintr: bool) -> Vec<Vec<Step>> {
             inter.push(Step::Eintr);
             prev = c;
         }
+        if with_panic {
+            // the pieces, then a panicking call instead of the rest
+            let mut p = plain.clone();
+            p.push(Step::Panic);
+            out.push(p);
+        }
         out.push(plain);
         if with_eintr && !cuts.is_empty() {
             out.push(inter);
@@ -1140,7 +1230,7 @@ fn cut_scripts(n: usize, max_cuts: usize, with_eintr: bool) -> Vec<Vec<Step>> {
 
 fn menu_scripts(max_len: usize) -> Vec<Vec<Step>> {
     let mut v = Vec::new();
-    for_each_seq(N_RSYM, max_len, |idx| v.push(idx.iter().map(|&i| rsym(i)).collect()));
+    for_each_script(N_RSYM, max_len, max_len, |idx| v.push(idx.iter().map(|&i| rsym(i)).collect()));
     v
 }
 
@@ -1175,6 +1265,8 @@ struct Bounds {
     /// size ladder: script length for read_to_end / read_exact, for read_to_string, number of formatted pieces,
     /// writer script length
     lad_read: usize,
+    /// size ladder: payloads above LADDER_BIG get scripts this much shorter (quick tier only)
+    lad_big_cut: usize,
     lad_rts: usize,
     lad_pieces: usize,
     lad_write: usize,
@@ -1186,9 +1278,9 @@ const WA_LENS: [usize; 5] = [0, 1, 2, 5, 33];
 
 fn c15(args: &Args) -> Report {
     let b = if args.thorough {
-        Bounds { l_pieces: 5, l_read: 7, l_rts: 5, l_rts_invalid: 3, l_write: 9, cuts_long: 3, lad_read: 5, lad_rts: 4, lad_pieces: 4, lad_write: 3 }
+        Bounds { l_pieces: 5, l_read: 7, l_rts: 5, l_rts_invalid: 3, l_write: 9, cuts_long: 3, lad_read: 5, lad_big_cut: 0, lad_rts: 4, lad_pieces: 4, lad_write: 3 }
     } else {
-        Bounds { l_pieces: 4, l_read: 6, l_rts: 4, l_rts_invalid: 2, l_write: 7, cuts_long: 2, lad_read: 4, lad_rts: 3, lad_pieces: 3, lad_write: 3 }
+        Bounds { l_pieces: 4, l_read: 5, l_rts: 4, l_rts_invalid: 2, l_write: 7, cuts_long: 2, lad_read: 4, lad_big_cut: 1, lad_rts: 3, lad_pieces: 3, lad_write: 3 }
     };
     let mut items: Vec<Isolated> = Vec::new();
 
@@ -1203,7 +1295,7 @@ fn c15(args: &Args) -> Report {
                 let mut cs = String::new();
                 let mut steps: Vec<Step> = Vec::new();
                 let mut k = 0u64;
-                for_each_seq(N_RSYM, l, |idx| {
+                for_each_script(N_RSYM, l, l.saturating_sub(1), |idx| {
                     steps.clear();
                     steps.extend(idx.iter().map(|&i| rsym(i)));
                     case_string(&mut cs, &prefix, &steps, false);
@@ -1231,7 +1323,7 @@ fn c15(args: &Args) -> Report {
                 let mut cs = String::new();
                 let mut steps: Vec<Step> = Vec::new();
                 let mut k = 0u64;
-                for_each_seq(N_RSYM, l, |idx| {
+                for_each_script(N_RSYM, l, l.saturating_sub(1), |idx| {
                     steps.clear();
                     steps.extend(idx.iter().map(|&i| rsym(i)));
                     case_string(&mut cs, &prefix, &steps, false);
@@ -1262,7 +1354,7 @@ fn c15(args: &Args) -> Report {
                 let mut cs = String::new();
                 let mut steps: Vec<Step> = Vec::new();
                 let mut k = 0u64;
-                for_each_seq(N_RSYM, l, |idx| {
+                for_each_script(N_RSYM, l, l, |idx| {
                     steps.clear();
                     steps.extend(idx.iter().map(|&i| rsym(i)));
                     case_string(&mut cs, &prefix, &steps, false);
@@ -1291,7 +1383,7 @@ fn c15(args: &Args) -> Report {
                 let mut cs = String::new();
                 let mut mask = 0u128;
                 let all_sizes: Vec<usize> = (1..=payload.len()).collect();
-                for (k, steps) in cut_scripts(payload.len(), max_cuts, true).iter().enumerate() {
+                for (k, steps) in cut_scripts(payload.len(), max_cuts, true, true).iter().enumerate() {
                     case_string(&mut cs, &prefix, steps, false);
                     set_case(&cs);
                     mask |= run_rts(&mut r, &cs, payload, steps, &all_sizes, old, spare, ident, false, false);
@@ -1320,7 +1412,7 @@ fn c15(args: &Args) -> Report {
                         payload.truncate(pos);
                     }
                     let mut r = Report::new();
-                    let mut scripts = cut_scripts(payload.len(), 1, false);
+                    let mut scripts = cut_scripts(payload.len(), 1, false, true);
                     scripts.extend(menu_scripts(l).into_iter().filter(|s| !s.is_empty()));
                     let all_sizes: Vec<usize> = (1..=payload.len()).chain(RMENU).collect();
                     let mut cs = String::new();
@@ -1352,7 +1444,7 @@ fn c15(args: &Args) -> Report {
             let mut cs = String::new();
             let mut payload: Vec<u8> = Vec::new();
             let mut steps: Vec<Step> = Vec::new();
-            for_each_seq(N_PSYM, l, |idx| {
+            for_each_script(N_PSYM, l, l, |idx| {
                 // `first == N_PSYM`: the scripts shorter than `l` (simplest first); else full length by first symbol
                 if (first == N_PSYM) != (idx.len() < l) || (idx.len() == l && idx[0] != first) {
                     return;
@@ -1360,6 +1452,10 @@ fn c15(args: &Args) -> Report {
                 payload.clear();
                 steps.clear();
                 for &i in idx {
+                    if i == N_PSYM {
+                        steps.push(Step::Panic);
+                        continue;
+                    }
                     match PSYMS[i] {
                         PSym::Data(d) => {
                             payload.extend_from_slice(d);
@@ -1416,7 +1512,7 @@ fn c15(args: &Args) -> Report {
                 let mut cs = String::new();
                 let mut steps: Vec<Step> = Vec::new();
                 let mut k = 0u64;
-                for_each_seq(N_WSYM, l, |idx| {
+                for_each_script(N_WSYM, l, l.saturating_sub(1), |idx| {
                     // `first == N_WSYM` is the shard of the scripts shorter than `l`
                     if (first == N_WSYM) != (idx.len() < l) || (idx.len() == l && idx[0] != first) {
                         return;
@@ -1447,7 +1543,7 @@ fn c15(args: &Args) -> Report {
     for &plen in &ladder_lens() {
         for len0 in [0usize, 5] {
             for &spare in &LADDER {
-                let l = b.lad_read;
+                let l = b.lad_read - if plen > LADDER_BIG { b.lad_big_cut } else { 0 };
                 items.push(isolated(format!("ladder-read_to_end-p{plen}-l{len0}-s{spare}"), move || {
                     let payload = ladder_payload(plen);
                     let cap0 = len0 + spare;
@@ -1455,7 +1551,7 @@ fn c15(args: &Args) -> Report {
                     let prefix = case_prefix(json!({"op":"read_to_end","ladder":true,"payload_len":plen,"len0":len0,"cap0":cap0}));
                     let mut cs = String::new();
                     let mut steps: Vec<Step> = Vec::new();
-                    for_each_seq(N_LSYM, l, |idx| {
+                    for_each_script(N_LSYM, l, l.saturating_sub(1), |idx| {
                         steps.clear();
                         steps.extend(idx.iter().map(|&i| lsym(i)));
                         case_string(&mut cs, &prefix, &steps, false);
@@ -1474,14 +1570,14 @@ fn c15(args: &Args) -> Report {
     for &plen in ladder_lens().iter().filter(|&&n| n > 0) {
         for old in ["", OLD_STR] {
             for &spare in &LADDER {
-                let l = b.lad_rts;
+                let l = b.lad_rts - if plen > LADDER_BIG { b.lad_big_cut } else { 0 };
                 items.push(isolated(format!("ladder-read_to_string-p{plen}-o{}-s{spare}", old.len()), move || {
                     let text = ladder_text(plen);
                     let mut r = Report::new();
                     let prefix = case_prefix(json!({"op":"read_to_string","ladder":true,"payload_len":plen,"old":old,"spare":spare}));
                     let mut cs = String::new();
                     let mut steps: Vec<Step> = Vec::new();
-                    for_each_seq(N_LSYM, l, |idx| {
+                    for_each_script(N_LSYM, l, l, |idx| {
                         steps.clear();
                         steps.extend(idx.iter().map(|&i| lsym(i)));
                         case_string(&mut cs, &prefix, &steps, false);
@@ -1496,14 +1592,14 @@ fn c15(args: &Args) -> Report {
     }
     for &bufsize in &LADDER {
         for plen in dedup_sorted(vec![bufsize.saturating_sub(1), bufsize, bufsize + 1, 100_000]) {
-            let l = b.lad_read;
+            let l = b.lad_read - if plen > LADDER_BIG { b.lad_big_cut } else { 0 };
             items.push(isolated(format!("ladder-read_exact-p{plen}-b{bufsize}"), move || {
                 let payload = ladder_payload(plen);
                 let mut r = Report::new();
                 let prefix = case_prefix(json!({"op":"read_exact","ladder":true,"payload_len":plen,"bufsize":bufsize}));
                 let mut cs = String::new();
                 let mut steps: Vec<Step> = Vec::new();
-                for_each_seq(N_LSYM, l, |idx| {
+                for_each_script(N_LSYM, l, l.saturating_sub(1), |idx| {
                     steps.clear();
                     steps.extend(idx.iter().map(|&i| lsym(i)));
                     case_string(&mut cs, &prefix, &steps, false);
@@ -1556,7 +1652,7 @@ fn c15(args: &Args) -> Report {
             for &plen in &PIECE_LENS {
                 let payload = ladder_payload(plen);
                 let prefix = case_prefix(json!({"op":"write_all","ladder":true,"payload_len":plen}));
-                for_each_seq(N_LWSYM, l, |idx| {
+                for_each_script(N_LWSYM, l, l, |idx| {
                     steps.clear();
                     steps.extend(idx.iter().map(|&i| lwsym(i)));
                     case_string(&mut cs, &prefix, &steps, true);
@@ -1602,6 +1698,7 @@ fn c15(args: &Args) -> Report {
     r.bound("ladder_extra_payload_lens", LADDER_EXTRA_LENS.to_vec());
     r.bound("ladder_piece_lens", PIECE_LENS.to_vec());
     r.bound("ladder_script_len_read", b.lad_read);
+    r.bound("ladder_script_len_cut_for_payloads_above_24581", b.lad_big_cut);
     r.bound("ladder_script_len_read_to_string", b.lad_rts);
     r.bound("ladder_max_pieces", b.lad_pieces);
     r.bound("ladder_script_len_write", b.lad_write);
@@ -1625,11 +1722,14 @@ fn c15(args: &Args) -> Report {
          0xFF substituted at every position and truncation at every byte of the 10/33/40-byte texts x (every single cut + scripts of length <= {li}). \
          every script of length <= {lpc} over the piece alphabet {{\"ab\", C3, A9, E2, 82 AC, E2 82, AC, EINTR, EIO, Ok(0)}} (each data entry delivers its piece; U+00E9 split 1+1, U+20AC split 1+2 and 2+1, A9/AC alone are lone continuation bytes), so that EIO also arrives inside a character. \
          write_all (payload lengths {WA_LENS:?}) and write_fmt ({nf} format strings producing 0..{mf} separate write_all fragments, arguments opaque to the compiler): every script of length <= {lw} over {{A1,A2,A4,AALL,EINTR,Ok(0)*,EIO*}} (* sticky, last position only). \
-         SIZE LADDER (same oracle): read_to_end with initial len {{0,5}} x spare capacity {LADDER:?} x payload lengths (the same + {LADDER_EXTRA_LENS:?}) x every script of length <= {ladr} over \
+         SIZE LADDER (same oracle): read_to_end with initial len {{0,5}} x spare capacity {LADDER:?} x payload lengths (the same + {LADDER_EXTRA_LENS:?}) x every script of length <= {ladr} ({ladcut} shorter for payloads above {LADDER_BIG}) over \
          chunk sizes {{D1,D10,D1000,D4096,DHALF (half the request),DALL (= exactly the request)}} and EINTR, the reader then repeating the last scripted chunk size until the data ends; \
          read_to_string likewise (multi-byte text, old in {{\"\",\"ab\u{20ac}\"}}, scripts <= {lads}); read_exact with buffer sizes from the ladder x payload lengths {{b-1,b,b+1,100000}}; \
          write_fmt with every sequence of 1..={ladp} pieces of lengths {PIECE_LENS:?} (each piece its own letters) in 3 shapes (arguments only / a short literal before each argument / a 130-byte literal after the first argument), \
          and write_all of those lengths, through every writer script of length <= {ladw} over {{A1,A100,AALL,EINTR}}. \
+         PANIC ENTRY `P`: in every enumeration above, each script may also end in a call in which the reader/writer panics (unwinds through the helper; \
+         for the large read_to_end/read_exact/write enumerations only scripts one shorter than the bound get this ending). After the unwind a String must be valid UTF-8 \
+         (type invariant) and unchanged if the bytes appended so far are not UTF-8; a Vec keeps its existing content; what a writer accepted is a prefix of the payload. \
          After its script a reader delivers the rest then Ok(0) (ladder: keeps its last chunk size); a writer accepts everything. Reference: plain concatenation of what the reader handed out / what was to be written. \
          A case counts as distinct when the helper consumed the whole script and no other script of the enumeration yields the same response sequence \
          (a delivery clipped by the buffer, an entry equal to the after-script behaviour, or unreached entries make a script a duplicate of another one); \
@@ -1643,6 +1743,7 @@ fn c15(args: &Args) -> Report {
         lw = b.l_write,
         lpc = b.l_pieces,
         ladr = b.lad_read,
+        ladcut = b.lad_big_cut,
         lads = b.lad_rts,
         ladp = b.lad_pieces,
         ladw = b.lad_write,
@@ -1653,8 +1754,8 @@ fn c15(args: &Args) -> Report {
     r.bound("max_script_len_read_to_string", b.l_rts);
     r.bound("max_script_len_write", b.l_write);
     r.bound("max_script_len_read_to_string_pieces", b.l_pieces);
-    r.bound("reader_menu", "D1 D2 D31 D32 D33 DALL Z(Ok(0)) I(EINTR) F(EIO)");
-    r.bound("writer_menu", "A1 A2 A4 AALL I(EINTR) Z(Ok(0), sticky) F(EIO, sticky)");
+    r.bound("reader_menu", "D1 D2 D31 D32 D33 DALL Z(Ok(0)) I(EINTR) F(EIO) P(panic, last entry only)");
+    r.bound("writer_menu", "A1 A2 A4 AALL I(EINTR) Z(Ok(0), sticky) F(EIO, sticky) P(panic, last entry only)");
     r.bound("shards", n_items);
     r.note("not covered: the print!/println!/eprint! path (tiny-std/src/unix/print.rs) writes through a raw syscall; it needs the syscall seam (S2) and is left to that harness");
     r.note("EINTR from a writer: write_all retries it (io.rs Write::write_all); the oracle accepts retry or returning EINTR, since the statement only promises retry for readers");
